@@ -2,4 +2,4 @@ From Coq Require Import Extraction ExtrOcamlBasic ExtrOcamlString.
 From PV Require Import Base.IO VpMap.VpMapDefs.
 Extraction Language OCaml.
 (* coqc runs from coq/ (coq_makefile), so the path is relative to it *)
-Extraction "extracted/vpmap.ml" io_witness vpmap_init parse_binding choose flat from_file user_flat_bindings hwloc_map init_nb.
+Extraction "extracted/vpmap.ml" io_witness vpmap_init parse_binding choose flat from_file user_flat_bindings hwloc_map init_nb user_flat_bindings_nc.
